@@ -68,8 +68,11 @@ class Program:
         self.enum_payload = {}     # enum name -> {variant: [field names] or int arity}
         self.structs = {}          # struct name -> [field names]  (named-field structs only)
         self.fn_jumps = {}         # generated logos state fn -> Jump variants
-        self.impl = {}             # (type last segment, trait key or None, method) -> item key
+        self.impl = {}             # (type last segment, trait key or None, method) -> item key (first seen)
+        self.impl_all = {}         # same key -> [item keys] (name collisions across crates)
+        self.enums_by_crate = {}   # crate -> {enum name: variants}
         self.closure_of = {}       # (crate, fn name, local) -> closure def path
+        self.closure_zst = {}      # (crate, fn name, bb, kept-line index) -> [def paths of zero-sized closure constants, in order]
         self.crates = []
         self._res = {}
         self._by_suffix = None
@@ -139,21 +142,35 @@ class Program:
     def _load_verbose(self, crate):
         path = os.path.join(self.mirdir, crate + '.vmir')
         if not os.path.exists(path): return
-        pk = path + '.pkl'
+        pk = path + '.pkl2'
         if os.path.exists(pk) and os.path.getmtime(pk) >= os.path.getmtime(path):
             try:
-                self.closure_of.update(pickle.load(open(pk, 'rb'))); return
+                a, b = pickle.load(open(pk, 'rb')); self.closure_of.update(a); self.closure_zst.update(b); return
             except Exception: pass
-        out = {}
-        cur = None
+        out = {}; zst = {}
+        cur = None; bb = None; idx = 0
+        zre = re.compile(r'const ConstValue\(ZeroSized: \{([^{}]*?::\{closure#\d+\})')
         for line in open(path):
             if line.startswith('fn '):
-                cur = line[3:line.index('(')]; continue
-            if cur and line.startswith('    let ') and 'closure#' in line:
+                cur = line[3:line.index('(')]; bb = None; continue
+            if cur is None: continue
+            if line.startswith('}'): cur = None; continue
+            if line.startswith('    let ') and 'closure#' in line:
                 m = re.match(r'\s+let (?:mut )?(_\d+): \{([A-Za-z_0-9:<>{}#, ]+?::\{closure#\d+\})(?:<[^>]*>)? closure_kind_ty', line)
                 if m: out[(crate, cur, m.group(1))] = re.sub(r'<[^>]*>', '', m.group(2))
-        self.closure_of.update(out)
-        try: pickle.dump(out, open(pk, 'wb'))
+                continue
+            st = line.strip()
+            if st.startswith('bb'):
+                m = re.match(r'(bb\d+)(?: \(cleanup\))?: \{$', st)
+                if m: bb = m.group(1); idx = 0; continue
+            if st == '}': bb = None; continue
+            if bb and st and not st.startswith(_SKIP):
+                if 'ZeroSized: {' in st and 'closure#' in st:
+                    ms = zre.findall(st)
+                    if ms: zst[(crate, cur, bb, idx)] = [re.sub(r'<[^>]*>', '', x) for x in ms]
+                idx += 1
+        self.closure_of.update(out); self.closure_zst.update(zst)
+        try: pickle.dump((out, zst), open(pk, 'wb'))
         except Exception: pass
 
     # ------------------------------------------------------------ ADT info from -Zunpretty=expanded
@@ -187,6 +204,7 @@ class Program:
         if os.path.exists(pk) and os.path.getmtime(pk) >= os.path.getmtime(path):
             try:
                 e, p, s, j = pickle.load(open(pk, 'rb'))
+                self.enums_by_crate[crate] = e
                 for k, v in e.items(): self.enums.setdefault(k, v)
                 for k, v in p.items(): self.enum_payload.setdefault(k, v)
                 for k, v in s.items(): self.structs.setdefault(k, v)
@@ -235,6 +253,7 @@ class Program:
                 if mm: fs.append((mm.group(1), ' '.join(mm.group(2).split())))
             structs.setdefault(name, fs)
         for k, v in enums.items(): self.enums.setdefault(k, v)
+        self.enums_by_crate[crate] = enums
         for k, v in payload.items(): self.enum_payload.setdefault(k, v)
         for k, v in structs.items(): self.structs.setdefault(k, v)
         self.fn_jumps.update(jumps)
@@ -244,9 +263,15 @@ class Program:
     def load_expanded_only(self, crate):
         self._load_adts(crate)
 
-    def variant_index(self, enum_path, variant):
+    def variant_index(self, enum_path, variant, cur_crate=None):
         name = re.sub(r'<.*', '', enum_path).split('::')[-1]
-        return self.enums[name].index(variant)
+        h = self.crate_hint(cur_crate, enum_path) if cur_crate else None
+        if h and name in self.enums_by_crate.get(h, {}): return self.enums_by_crate[h][name].index(variant)
+        vs = self.enums[name]
+        if variant not in vs:
+            for c, es in self.enums_by_crate.items():
+                if name in es and variant in es[name]: return es[name].index(variant)
+        return vs.index(variant)
 
     # ------------------------------------------------------------ impl index
     @functools.lru_cache(None)
@@ -270,14 +295,15 @@ class Program:
                 s = re.sub(r'^impl\s*(<[^>]*>)?\s*', '', snippet)
                 s = re.sub(r'\s+where\s.*$', '', s)
                 if ' for ' in s:
-                    tr, ty = s.split(' for ', 1); self.impl[(lastseg(ty), traitkey(tr), meth)] = key
-                else: self.impl[(lastseg(s), None, meth)] = key
+                    tr, ty = s.split(' for ', 1); k3 = (lastseg(ty), traitkey(tr), meth)
+                else: k3 = (lastseg(s), None, meth)
+                self.impl.setdefault(k3, key); self.impl_all.setdefault(k3, []).append(key)
             else:
                 ty = None
                 for j in range(l1 - 1, min(l1 + 14, len(src))):
                     mm = re.search(r'\b(struct|enum)\s+([A-Za-z_0-9]+)', src[j])
                     if mm: ty = mm.group(2); break
-                self.impl[(ty, snippet, meth)] = key
+                self.impl.setdefault((ty, snippet, meth), key); self.impl_all.setdefault((ty, snippet, meth), []).append(key)
 
     # ------------------------------------------------------------ callee resolution
     def resolve(self, crate, callee):
@@ -297,7 +323,8 @@ class Program:
         if m:
             k = (lastseg(m.group(1)), traitkey(m.group(2)), m.group(3))
             if k in self.impl:
-                base = self.impl[k]
+                base = self.pick(self.impl_all[k], crate, m.group(1))
+                if base is None: return None
                 if m.group(4):
                     cand = (base[0], self.items[base].name + m.group(4))
                     return cand if cand in self.items else None
@@ -306,13 +333,33 @@ class Program:
         parts = n.split('::')
         if len(parts) >= 2:
             k = (lastseg(parts[-2]), None, parts[-1])
-            if k in self.impl: return self.impl[k]
+            if k in self.impl:
+                r = self.pick(self.impl_all[k], crate, '::'.join(parts[:-1]))
+                if r is not None: return r
             ty = lastseg(parts[-2]); meth = parts[-1]; modp = '::'.join(parts[:-2])
             modp = re.sub(r'^[a-z_0-9]+::', '', modp) if modp.split('::')[0] in CRATE_ALIAS else modp
             pat = re.compile(re.escape(modp) + r'::<impl at [^>]*>::' + re.escape(meth))
             cands = [k2 for k2, it in self.items.items() if it.kind == 'fn' and pat.fullmatch(it.name)]
             cands = [k2 for k2 in cands if ty in self.items[k2].header]
             if len(cands) == 1: return cands[0]
+        return None
+
+    def crate_hint(self, cur_crate, path):
+        p = path.strip()
+        for pre in ('&mut ', '&', 'dyn '): 
+            if p.startswith(pre): p = p[len(pre):]
+        first = p.split('::')[0].lstrip('<')
+        return CRATE_ALIAS.get(first, cur_crate if first not in ('std', 'core', 'alloc') else None)
+
+    def pick(self, cands, cur_crate, path):
+        if len(cands) == 1: return cands[0]
+        h = self.crate_hint(cur_crate, path)
+        c2 = [k for k in cands if k[0] == h]
+        if len(c2) == 1: return c2[0]
+        # same crate, several modules: match the module path
+        mods = [seg for seg in re.sub(r'<.*', '', path).split('::')[:-1] if seg not in CRATE_ALIAS]
+        c3 = [k for k in (c2 or cands) if all(seg in k[1] for seg in mods)] if mods else []
+        if len(c3) == 1: return c3[0]
         return None
 
     def find_fn(self, crate, suffix):
